@@ -97,7 +97,22 @@ def make_zip(recipe):
             zf.writestr(zi, data)
         if recipe.get("comment"):
             zf.comment = recipe["comment"].encode("latin-1")
-    return bio.getvalue()
+    data = bytearray(bio.getvalue())
+    enc = [i for i, m in enumerate(recipe.get("members", [])) if m.get("encrypted")]
+    if enc:
+        # a member marked as password-protected (general purpose flag bit 0, local and central header): it cannot be opened
+        # without a password; its name and sizes are still in the central directory
+        with zipfile.ZipFile(io.BytesIO(bytes(data))) as zf:
+            infos = zf.infolist()
+            pos = zf.start_dir
+        for i, zi in enumerate(infos):
+            assert data[pos:pos + 4] == b"PK\x01\x02"
+            nlen, elen, clen = struct.unpack("<HHH", data[pos + 28:pos + 34])
+            if i in enc:
+                data[pos + 8] |= 1
+                data[zi.header_offset + 6] |= 1
+            pos += 46 + nlen + elen + clen
+    return bytes(data)
 
 
 def node_bytes(node):
@@ -336,7 +351,7 @@ BASE_ENV = {
 }
 
 
-def execute(rundir, argv, cwd, tz, plan_text, timeout=60.0, binary=None, keep_plan=False, config_text=None, nofile=None):
+def execute(rundir, argv, cwd, tz, plan_text, timeout=60.0, binary=None, keep_plan=False, config_text=None, nofile=None, aslimit=None, stdin_text=None):
     """Run the binary once under the shim. rundir is a private scratch directory."""
     plan_path = os.path.join(rundir, "plan")
     log_path = os.path.join(rundir, "log")
@@ -361,12 +376,22 @@ def execute(rundir, argv, cwd, tz, plan_text, timeout=60.0, binary=None, keep_pl
     with open(out_path, "wb") as fo, open(err_path, "wb") as fe:
         try:
             pre = None
-            if nofile:
-                # a small descriptor table (RLIMIT_NOFILE): the kernel enforces it, deterministically for a single-threaded run
+            if nofile or aslimit:
+                # a small descriptor table (RLIMIT_NOFILE) / address space (RLIMIT_AS): the kernel enforces them,
+                # deterministically for a single-threaded run
                 import resource
-                pre = lambda: resource.setrlimit(resource.RLIMIT_NOFILE, (nofile, nofile))
-            p = subprocess.run([binary or BINARY] + list(argv), cwd=cwd, env=env, stdin=subprocess.DEVNULL,
-                               stdout=fo, stderr=fe, timeout=timeout, preexec_fn=pre)
+
+                def pre():
+                    if nofile:
+                        resource.setrlimit(resource.RLIMIT_NOFILE, (nofile, nofile))
+                    if aslimit:
+                        resource.setrlimit(resource.RLIMIT_AS, (aslimit, aslimit))
+            if stdin_text is not None:
+                p = subprocess.run([binary or BINARY] + list(argv), cwd=cwd, env=env, input=stdin_text.encode("utf-8", "surrogateescape"),
+                                   stdout=fo, stderr=fe, timeout=timeout, preexec_fn=pre)
+            else:
+                p = subprocess.run([binary or BINARY] + list(argv), cwd=cwd, env=env, stdin=subprocess.DEVNULL,
+                                   stdout=fo, stderr=fe, timeout=timeout, preexec_fn=pre)
             rc = p.returncode
         except subprocess.TimeoutExpired:
             rc = None
@@ -417,16 +442,16 @@ class Sandbox:
         materialise(world, self.root)
         self.nexec = 0
 
-    def run(self, argv, plan=None, cwd="", tz="UTC", timeout=60.0, config=None):
+    def run(self, argv, plan=None, cwd="", tz="UTC", timeout=60.0, config=None, stdin_text=None):
         plan = plan or {}
         if config is None:
             config = plan.get("config")  # a configuration file as part of the environment E
         text = compile_plan(plan, self.world, self.root)
         self.nexec += 1
-        res = execute(self.base, argv, os.path.join(self.root, cwd), tz, text, timeout=timeout, config_text=config, nofile=plan.get("nofile"))
+        res = execute(self.base, argv, os.path.join(self.root, cwd), tz, text, timeout=timeout, config_text=config, nofile=plan.get("nofile"), aslimit=plan.get("aslimit"), stdin_text=stdin_text)
         if res.sim == "TIMEOUT":
             # backstop only: reproduce once before believing it (DESIGN 4.2)
-            res2 = execute(self.base, argv, os.path.join(self.root, cwd), tz, text, timeout=timeout, config_text=config, nofile=plan.get("nofile"))
+            res2 = execute(self.base, argv, os.path.join(self.root, cwd), tz, text, timeout=timeout, config_text=config, nofile=plan.get("nofile"), aslimit=plan.get("aslimit"), stdin_text=stdin_text)
             if res2.sim != "TIMEOUT":
                 raise HarnessError("unreproduced wall-clock timeout")
             return res2
